@@ -348,6 +348,14 @@ where
         // and thus that we should lay out this node using hidden layout regardless of it's own display style.
         if inputs.run_mode == RunMode::PerformHiddenLayout {
             debug_log!("HIDDEN");
+            #[cfg(taffy_verif)]
+            {
+                crate::verif_hooks::enter();
+                let out = compute_hidden_layout(self, node);
+                crate::verif_hooks::exit(node, &inputs, &out, crate::verif_hooks::QueryKind::Hidden);
+                return out;
+            }
+            #[cfg(not(taffy_verif))]
             return compute_hidden_layout(self, node);
         }
 
